@@ -430,4 +430,263 @@ func runC04(r *an.Run) {
 				o.FailAt("makeBreachedOutput#sites", "", "expected three witness-type selections (our output, their output, HTLCs), found %d", n)
 			}
 		})
+
+	r.Obl("breach-lookup-sees-persisted-secrets", "ROLE",
+		"the chain watcher refreshes the revocation store of its channel snapshot from disk before it classifies a spend: newChainSet calls RemoteRevocationStore successfully; since it discards the result, ChannelStateDB.RemoteRevocationStore must decode the stored revocation state into the channel it was given and return that channel's store; NewBreachRetribution looks the secret up in chanState.RevocationStore",
+		"the watcher holds a snapshot taken at start-up: without the refresh every state revoked since then is not recognised as a breach although its secret is on disk", 4,
+		func(o *an.Obl) {
+			f := p.Func("contractcourt.newChainSet")
+			calls := f.Calls(an.CalleeIs("chanstate.OpenChannel.RemoteRevocationStore"), false)
+			if need(o, f, "RemoteRevocationStore", calls, 1) {
+				mustPass(o, f, "RemoteRevocationStore", calls, an.OkErrNil, f.StrictSuccessReturnsOrNilPtr())
+				discarded := false
+				ast.Inspect(f.Body, func(n ast.Node) bool {
+					if as, ok := n.(*ast.AssignStmt); ok && len(as.Rhs) == 1 && as.Rhs[0] == calls[0].Node.(ast.Expr) {
+						if id, ok := as.Lhs[0].(*ast.Ident); ok && id.Name == "_" {
+							discarded = true
+						}
+					}
+					return true
+				})
+				o.Site("newChainSet discards the returned store: %v", discarded)
+				if discarded {
+					g := p.Func("channeldb.ChannelStateDB.RemoteRevocationStore")
+					ok := false
+					for _, lf := range append([]*an.Func{g}, g.Lits...) {
+						for _, s := range lf.Calls(an.CalleeIs("channeldb.fetchChanRevocationState"), false) {
+							a := lf.ArgCanon(s)
+							o.Site("%s decodes into %s", s.String(), a[1])
+							if a[1] == "$p0" {
+								ok = true
+							}
+						}
+					}
+					if !ok {
+						o.FailAt(g.ID+"#refreshes-caller", g.Where(g.Body.Pos()), "RemoteRevocationStore no longer decodes the stored revocation state into the channel it was given, but newChainSet relies on exactly that side effect")
+					}
+					for _, s := range g.StrictSuccessReturnsOrNilPtr() {
+						if c := g.Canon(s.Node.(*ast.ReturnStmt).Results[0]); c != "$p0.RevocationStore" {
+							o.FailAt(g.ID+"#returned-store", s.Where(), "RemoteRevocationStore returns %s", c)
+						}
+					}
+				}
+			}
+			nb := p.Func(lw + "NewBreachRetribution")
+			n := 0
+			for _, s := range nb.Calls(an.CalleeNamed("LookUp"), false) {
+				n++
+				if c := nb.Canon(s.Node.(*ast.CallExpr).Fun); c != "$p0.RevocationStore.LookUp" {
+					o.FailAt(nb.ID+"#lookup-store", s.Where(), "the revoked secret is looked up through %s", c)
+				}
+				if a := nb.ArgCanon(s); a[0] != "$p1" {
+					o.FailAt(nb.ID+"#lookup-height", s.Where(), "the revoked secret is looked up at %s, expected the broadcast state number", a[0])
+				}
+			}
+			if n != 1 {
+				o.FailAt(nb.ID+"#lookup", nb.Where(nb.Body.Pos()), "expected one RevocationStore.LookUp in NewBreachRetribution, found %d", n)
+			}
+		})
+
+	r.Obl("taproot-retribution-fields-mirror", "MIRROR",
+		"taprootBriefcaseFromRetInfo (store) and applyTaprootRetInfo (reload) move, per witness-type case, the same pairs (breached output field <-> briefcase field): commit/revoke control blocks, the two resolution blobs, the first-level tap tweak and the second-level tap tweak each to and from its own briefcase field",
+		"after a restart the justice transaction is rebuilt from the briefcase; a field reloaded from its sibling signs for the wrong output key and that input of the justice transaction is invalid", 3,
+		func(o *an.Obl) {
+			st := transferPairs(p.Func("contractcourt.taprootBriefcaseFromRetInfo"), "bo", "tapCase")
+			ld := transferPairs(p.Func("contractcourt.applyTaprootRetInfo"), "bo", "tapCase")
+			keys := map[string]bool{}
+			for k := range st {
+				keys[k] = true
+			}
+			for k := range ld {
+				keys[k] = true
+			}
+			n := 0
+			for k := range keys {
+				a, b := strings.Join(st[k], " ; "), strings.Join(ld[k], " ; ")
+				o.Site("case %s: stored {%s} reloaded {%s}", k, a, b)
+				n += len(st[k])
+				if a != b {
+					o.FailAt("contractcourt.applyTaprootRetInfo#case-"+k, "", "for witness types %s the briefcase stores {%s} but the reload applies {%s}", k, a, b)
+				}
+			}
+			if n < 6 {
+				o.FailAt("contractcourt.taprootBriefcaseFromRetInfo#pairs", "", "expected at least 6 stored field pairs, found %d", n)
+			}
+		})
+}
+
+// transferPairs extracts, per case clause of the first tag switch of f, the
+// pairs "itemField<->caseField" of values moved between the variable named
+// item and the variable named box (in either direction), following locals,
+// copy() and WhenSome closures.
+func transferPairs(f *an.Func, item, box string) map[string][]string {
+	out := map[string][]string{}
+	var sw *ast.SwitchStmt
+	ast.Inspect(f.Body, func(n ast.Node) bool {
+		if s, ok := n.(*ast.SwitchStmt); ok && sw == nil && s.Tag != nil {
+			sw = s
+		}
+		return sw == nil
+	})
+	if sw == nil {
+		return out
+	}
+	pathOf := func(e ast.Expr) (root, path string) {
+		e = ast.Unparen(e)
+		var parts []string
+		for {
+			switch x := e.(type) {
+			case *ast.SelectorExpr:
+				if x.Sel.Name != "Val" {
+					parts = append([]string{x.Sel.Name}, parts...)
+				}
+				e = x.X
+				continue
+			case *ast.IndexExpr:
+				e = x.X
+				continue
+			case *ast.SliceExpr:
+				e = x.X
+				continue
+			case *ast.StarExpr:
+				e = x.X
+				continue
+			case *ast.UnaryExpr:
+				e = x.X
+				continue
+			case *ast.ParenExpr:
+				e = x.X
+				continue
+			case *ast.Ident:
+				return x.Name, strings.Join(parts, ".")
+			}
+			return "", ""
+		}
+	}
+	// fallthrough groups: a clause whose body is only `fallthrough` shares the next clause's body
+	clauses := sw.Body.List
+	for i := 0; i < len(clauses); i++ {
+		cl := clauses[i].(*ast.CaseClause)
+		var labels []string
+		for _, e := range cl.List {
+			labels = append(labels, an.Text(e))
+		}
+		for len(cl.Body) == 1 && i+1 < len(clauses) {
+			if b, ok := cl.Body[0].(*ast.BranchStmt); !ok || b.Tok.String() != "fallthrough" {
+				break
+			}
+			i++
+			cl = clauses[i].(*ast.CaseClause)
+			for _, e := range cl.List {
+				labels = append(labels, an.Text(e))
+			}
+		}
+		sortStrings(labels)
+		key := strings.Join(labels, ",")
+		env := map[string]map[string]bool{} // local -> "root:path"
+		srcs := func(e ast.Expr) map[string]bool {
+			res := map[string]bool{}
+			ast.Inspect(e, func(n ast.Node) bool {
+				switch x := n.(type) {
+				case *ast.SelectorExpr, *ast.IndexExpr:
+					root, path := pathOf(x.(ast.Expr))
+					if (root == item || root == box) && path != "" {
+						res[root+":"+path] = true
+						return false
+					}
+				case *ast.Ident:
+					for k := range env[x.Name] {
+						res[k] = true
+					}
+				case *ast.FuncLit:
+					return false
+				}
+				return true
+			})
+			return res
+		}
+		pairs := map[string]bool{}
+		record := func(dst ast.Expr, from map[string]bool) {
+			root, path := pathOf(dst)
+			if id, ok := ast.Unparen(dst).(*ast.Ident); ok {
+				if env[id.Name] == nil {
+					env[id.Name] = map[string]bool{}
+				}
+				for k := range from {
+					env[id.Name][k] = true
+				}
+				return
+			}
+			if (root != item && root != box) || path == "" {
+				// a local selected/sliced: treat as the local
+				if root != "" && root != item && root != box {
+					if env[root] == nil {
+						env[root] = map[string]bool{}
+					}
+					for k := range from {
+						env[root][k] = true
+					}
+				}
+				return
+			}
+			for k := range from {
+				kr := k[:strings.Index(k, ":")]
+				if kr == root {
+					continue
+				}
+				ip, bp := path, k[strings.Index(k, ":")+1:]
+				if root == box {
+					ip, bp = bp, path
+				}
+				pairs[ip+"<->"+bp] = true
+			}
+		}
+		var walk func(n ast.Node)
+		walk = func(n ast.Node) {
+			ast.Inspect(n, func(m ast.Node) bool {
+				switch x := m.(type) {
+				case *ast.AssignStmt:
+					if len(x.Rhs) == 1 {
+						from := srcs(x.Rhs[0])
+						record(x.Lhs[0], from)
+					} else {
+						for j := range x.Lhs {
+							if j < len(x.Rhs) {
+								record(x.Lhs[j], srcs(x.Rhs[j]))
+							}
+						}
+					}
+				case *ast.ValueSpec:
+					for j, nm := range x.Names {
+						if j < len(x.Values) {
+							record(nm, srcs(x.Values[j]))
+						}
+					}
+				case *ast.CallExpr:
+					if id, ok := x.Fun.(*ast.Ident); ok && id.Name == "copy" && len(x.Args) == 2 {
+						record(x.Args[0], srcs(x.Args[1]))
+					}
+					if sel, ok := x.Fun.(*ast.SelectorExpr); ok && strings.HasPrefix(sel.Sel.Name, "WhenSome") && len(x.Args) == 1 {
+						if fl, ok := x.Args[0].(*ast.FuncLit); ok && len(fl.Type.Params.List) == 1 && len(fl.Type.Params.List[0].Names) == 1 {
+							pn := fl.Type.Params.List[0].Names[0].Name
+							env[pn] = srcs(sel.X)
+							walk(fl.Body)
+							return false
+						}
+					}
+				}
+				return true
+			})
+		}
+		for _, st := range cl.Body {
+			walk(st)
+		}
+		var list []string
+		for k := range pairs {
+			list = append(list, k)
+		}
+		sortStrings(list)
+		out[key] = list
+	}
+	return out
 }
